@@ -28,6 +28,7 @@ def check(repo, tier="quick"):
     res.rule("C15.e", "accepted under the configured level: each candidate base format is combined only with level-table columns filtered for that base format; defaults and header carry the same candidate")
     res.rule("C15.g", "the hand-written colour-specification generator: flag clear only if all three of primaries, matrix and transfer function of the base format equal the wanted ones; a preset (other than 0) only if its three fields, in the namedtuple's order, equal the wanted ones; the explicit form is relative to preset 0's three values and nests the three sub-generators under their own keys")
     res.rule("C15.h", "the validator accepts what the encoder may emit: each `assert_in_enum(value, E, exception)` of the validator's sequence-header functions names the enumeration with which the bitstream description declares the very field the checked value is read into (fixeddict Entry enum=...), which is the enumeration the encoder's preset indices are drawn from")
+    res.rule("C15.i", "the generated headers carry major_version = AUTO: the value the validator sees is the one automatic filling computes, per sequence, from the header's own presets (every rule of C07 re-evaluated)")
     res.rule("C15.d", "yielded dictionaries: flag-clear only if the base format already matches; preset only if the preset tuple equals the wanted values; custom values copied from the wanted video parameters; headers built from set_source_defaults of the same base format")
 
     ot = enc_tables.option_tables(repo)
@@ -38,6 +39,13 @@ def check(repo, tier="quick"):
     rule_d(repo, res, ot)
     rule_colorspec(repo, res)
     rule_enum_agreement(repo, res)
+    # the headers leave major_version to automatic filling: every rule of C07 re-evaluated
+    from . import c07 as _c07
+    from ..report import Ob as _Ob
+
+    for _o in _c07.check(repo, "quick").obs:
+        res._add(_Ob("C15.i", "%s/%s" % (_o.rule, _o.key), _o.where, _o.status, _o.detail, _o.by, _o.path))
+    res.floor("C15.i", 100)
     from .c16 import level_filter_rule
 
     level_filter_rule(repo, res, "C15.e")
